@@ -150,7 +150,7 @@ def execute(ctx):
         bl.close()
 
     verdict = sim.run(scenario)
-    if verdict[0] in ('deadlock', 'timeout'):
+    if verdict[0] in ('deadlock', 'timeout', 'livelock'):
         from simkit.harness import hang_signature
         sg, msg = hang_signature(verdict)
         ctx.violation('4', sg, msg, verdict[1])
